@@ -250,7 +250,7 @@ contract(
         "locals": {"changes": "List[Chg]"},
         "untracked": ["snapshot_flags", "raised_exception", "tests_found", "report_output", "console", "current_files", "parser", "parsed_args"],
         "tracked_calls": ["apply_all", "fix_all", "persist", "remove"],
-        "with_hook": ri_with_hook, "approved_term": ri_approved, "no_gate": True,
+        "with_hook": ri_with_hook, "approved_term": ri_approved, "no_gate": True, "hook_props": ["C19"],
         "may_raise": True, "light_feasibility": True, "havoc_unknown_externals": True,
     },
     safety_props=["C18", "C19"],
